@@ -172,7 +172,7 @@ def gen(seed, tier):
     for h, ops, f in hand_cases():
         cases.append(h + " | " + ops)
         fam[f] = fam.get(f, 0) + 1
-    nrand = 60 if tier == "quick" else 500
+    nrand = 400 if tier == "quick" else 4000
     for i in range(nrand):
         small = r.random() < 0.6
         lay = LAYOUTS[r.choice(SMALL)] if small else LAYOUTS[r.randrange(len(LAYOUTS))]
